@@ -153,7 +153,7 @@ class NoneSem:
 
 class Row:
     def __init__(self, prop, dom, ood=(), eq="=", none=NO, affects=(), expect=None, get=None,
-                 set=None, src="", pre=None, default=None):
+                 set=None, src="", pre=None, default=None, owner=None):
         self.prop = prop
         self.dom = dom
         self.ood = list(ood)
@@ -168,6 +168,7 @@ class Row:
         # default - "Assigning the default value causes the attribute to be removed from the
         # element" (oxml/xmlchemy.py:194-198, the mechanism the property anchors); probe as in NoneSem
         self.default = default
+        self.owner = owner            # class defining the property when it is a base class of the kind's class
         self.pre = pre                # fn(before) -> bool: row applicable in this state (documented precondition)
 
 
@@ -669,21 +670,21 @@ COLOR_READINGS = {"type": lambda o, ch: o.type, "brightness": lambda o, ch: o.br
 def axis_rows():
     """_BaseAxis (chart/axis.py:46-242)"""
     return [
-        Row("has_major_gridlines", D_bool(), [], src="chart/axis.py:58"),
-        Row("has_minor_gridlines", D_bool(), [], src="chart/axis.py:77"),
-        Row("has_title", D_bool(), [], src="chart/axis.py:96"),
-        Row("visible", D_bool(), ["x", 2, None], src="chart/axis.py:237"),
-        Row("reverse_order", D_bool(), [], src="chart/axis.py:194"),
-        Row("major_tick_mark", D_enum("XL_TICK_MARK"), [999983, "x"], src="chart/axis.py:122"),
-        Row("minor_tick_mark", D_enum("XL_TICK_MARK"), [999983, "x"], src="chart/axis.py:172"),
+        Row("has_major_gridlines", D_bool(), [], owner="_BaseAxis", src="chart/axis.py:58"),
+        Row("has_minor_gridlines", D_bool(), [], owner="_BaseAxis", src="chart/axis.py:77"),
+        Row("has_title", D_bool(), [], owner="_BaseAxis", src="chart/axis.py:96"),
+        Row("visible", D_bool(), ["x", 2, None], owner="_BaseAxis", src="chart/axis.py:237"),
+        Row("reverse_order", D_bool(), [], owner="_BaseAxis", src="chart/axis.py:194"),
+        Row("major_tick_mark", D_enum("XL_TICK_MARK"), [999983, "x"], owner="_BaseAxis", src="chart/axis.py:122"),
+        Row("minor_tick_mark", D_enum("XL_TICK_MARK"), [999983, "x"], owner="_BaseAxis", src="chart/axis.py:172"),
         Row("tick_label_position", D_enum("XL_TICK_LABEL_POSITION"), [999983, "x"],
-            src="chart/axis.py:222"),
+            owner="_BaseAxis", src="chart/axis.py:222"),
         Row("maximum_scale", D_float(-1e12, 1e12, extra_bnd=(0.0, 1e-300, -1e300)), ["x"], eq="=f",
             none=NoneSem(None, lambda o, ch: o._element.scaling.max is not None),
-            src="chart/axis.py:140"),
+            owner="_BaseAxis", src="chart/axis.py:140"),
         Row("minimum_scale", D_float(-1e12, 1e12, extra_bnd=(0.0, 1e-300, -1e300)), ["x"], eq="=f",
             none=NoneSem(None, lambda o, ch: o._element.scaling.min is not None),
-            src="chart/axis.py:156"),
+            owner="_BaseAxis", src="chart/axis.py:156"),
     ]
 
 
